@@ -179,10 +179,123 @@ def r06_3(ctx, counts: dict[str, int]) -> RuleResult:
     return res
 
 
+def _operator_func(ctx, symbol: str):
+    for rec in ctx.reg.all_records():
+        if rec.symbol == symbol:
+            ref = rec.method('evaluate')
+            if ref is not None and ref.func is not None and ref.origin != 'class':
+                return ref.func
+    raise AnalysisError(f'evaluate method of {symbol!r} not located')
+
+
+def r06_4(ctx, counts: dict[str, int]) -> RuleResult:
+    """idiv: the floor -> truncation correction depends on inexactness"""
+    from ..engine.cfg import CFG
+    from ..engine.dataflow import branch_facts
+    res = RuleResult(
+        'R06.4', 'IDIV-TRUNCATION-CORRECTION',
+        'op:numeric-integer-divide truncates towards zero while Python\'s // floors. In the '
+        'evaluate method of idiv, a result derived from `a // b` that is corrected by `+ 1` for '
+        'negative quotients is corrected only when the division is inexact: the branch facts at '
+        'the corrected return contain the negation of an exactness test that relates quotient, '
+        'divisor and dividend (`q * b == a`, `a % b == 0`, divmod). Without it every exact '
+        'negative quotient is off by one (-6 idiv 2 = -2).')
+    f = _operator_func(ctx, 'idiv')
+    if not any(isinstance(x, ast.BinOp) and isinstance(x.op, ast.FloorDiv) for x in walk_local(f.node)):
+        res.instances.append(f'{f.key}: no // in the implementation (truncating division used)')
+        res.ok()
+        return res
+    cfg = CFG(f.node)
+    facts = branch_facts(cfg)
+    n = 0
+    for nd in cfg.nodes:
+        if nd.kind != 'stmt' or not isinstance(nd.ast, ast.Return) or nd.ast.value is None:
+            continue
+        v = nd.ast.value
+        if not (isinstance(v, ast.BinOp) and isinstance(v.op, (ast.Add, ast.Sub)) and
+                isinstance(v.right, ast.Constant) and v.right.value == 1):
+            continue
+        n += 1
+        exact = [fa for fa in facts[nd.id] if fa.startswith('-') and
+                 ('*' in fa or '%' in fa or 'divmod' in fa) and '==' in fa]
+        res.instances.append(f'{f.key}: `{stmt_text(nd.ast)}` under inexactness fact {exact}')
+        if exact:
+            res.ok()
+        else:
+            res.fail(finding('R06.4', f, nd.ast, 'correction without exactness test',
+                             f'`{stmt_text(nd.ast)}` corrects the floored quotient whenever it '
+                             f'is negative (facts: {sorted(facts[nd.id])[:4]}), also when the '
+                             f'division is exact: -6 idiv 2 gives -2 instead of -3'))
+    counts['idiv_corrections'] = n
+    return res
+
+
+def r06_5(ctx, counts: dict[str, int]) -> RuleResult:
+    """mod: the result has the sign of the dividend"""
+    res = RuleResult(
+        'R06.5', 'MOD-SIGN-OF-DIVIDEND',
+        'op:numeric-mod returns a result with the sign of the dividend; Python\'s % on int and '
+        'float follows the divisor. In the evaluate method of mod every `%` on the evaluated '
+        'operands has both operands wrapped in abs() (the sign is applied afterwards), or is '
+        'math.fmod, or sits in the true branch of a test that the operands have the same sign '
+        '(`a * b >= 0`), or both operands are established to be Decimal (whose % follows the '
+        'dividend).')
+    f = _operator_func(ctx, 'mod')
+    operands: set[str] = set()
+    for n in walk_local(f.node):
+        if isinstance(n, ast.Assign) and isinstance(n.value, ast.Call) and \
+                dotted(n.value.func).split('.')[-1] in ('get_operands', 'get_argument'):
+            for t in n.targets:
+                for x in (t.elts if isinstance(t, ast.Tuple) else [t]):
+                    if isinstance(x, ast.Name):
+                        operands.add(x.id)
+    parents: dict[int, ast.AST] = {}
+    for a in ast.walk(f.node):
+        for c in ast.iter_child_nodes(a):
+            parents[id(c)] = a
+    n_ops = 0
+    for x in walk_local(f.node):
+        if not (isinstance(x, ast.BinOp) and isinstance(x.op, ast.Mod)):
+            continue
+        if not ({y.id for y in ast.walk(x) if isinstance(y, ast.Name)} & operands):
+            continue
+        n_ops += 1
+
+        def is_abs(e: ast.expr) -> bool:
+            return isinstance(e, ast.Call) and dotted(e.func) == 'abs'
+        ok = is_abs(x.left) and is_abs(x.right)
+        why = 'abs() on both operands' if ok else ''
+        if not ok:
+            cur: ast.AST = x
+            while id(cur) in parents and not ok:
+                par = parents[id(cur)]
+                if isinstance(par, ast.IfExp) and cur is par.body:
+                    t = stmt_text(par.test)
+                    if '*' in t and '>= 0' in t:
+                        ok, why = True, f'same-sign branch of `{t}`'
+                cur = par
+                if isinstance(par, ast.stmt):
+                    break
+        res.instances.append(f'{f.key}: `{stmt_text(x)[:40]}` -> {why or "sign of the divisor"}')
+        if ok:
+            res.ok()
+        else:
+            res.fail(finding('R06.5', f, x, f'{stmt_text(x)[:30]} follows the divisor',
+                             f'`{stmt_text(x)[:40]}` applies Python\'s % to the raw operands: for '
+                             f'int and float the result takes the sign of the divisor '
+                             f'(5 mod -3 = 1 instead of 2, -7.5e0 mod 2 = 0.5 instead of -1.5)'))
+    counts['mod_ops'] = n_ops
+    if n_ops < 1 and not any(isinstance(c, ast.Call) and dotted(c.func) == 'math.fmod'
+                             for c in walk_local(f.node)):
+        raise AnalysisError('mod operator: neither % nor math.fmod located')
+    return res
+
+
 def run(ctx) -> dict:
     counts: dict[str, int] = {}
     return {
-        'results': [r06_1(ctx, counts), r06_2(ctx, counts), r06_3(ctx, counts)], 'counts': counts,
+        'results': [r06_1(ctx, counts), r06_2(ctx, counts), r06_3(ctx, counts), r06_4(ctx, counts),
+                    r06_5(ctx, counts)], 'counts': counts,
         'explanation':
             'Decided: the rounding-mode clause of C06 and one IEEE clause (the sign of a zero '
             'divisor is never read through a comparison). Rounding: a who-may-call rule confines '
